@@ -265,6 +265,13 @@ impl FragmentAssembler {
         };
 
         if let Some(msg) = self.pending.get_mut(&sequence_id) {
+            if msg.total_fragments.is_some_and(|known| known != count) {
+                trace!(
+                    "Ignoring header for sequence {} with fragment count {}: its count is already known to be different",
+                    sequence_id.0, fragment_id
+                );
+                return None;
+            }
             trace!(
                 "Received header for sequence {} which already has buffered fragments",
                 sequence_id.0
